@@ -58,6 +58,9 @@ def obligations(tier):
     stacks = [list(c) for n in range(0, maxd + 1) for c in it.product(c12.MW_KINDS, repeat=n)]
     for stack, table, req in it.product(stacks, c12.TABLES, ('ok', 'perr', 'internal', 'notif_perr', 'batch', 'batch2')):
         obs.append({'h': 'srv_chain', 'stack': stack, 'table': table, 'req': req})
+    # the asynchronous dispatcher in SEQUENTIAL batch mode (concurrent_batch=False) against the synchronous one
+    for stack, table, req in it.product(([], ['P'], ['Q'], ['W'], ['S', 'P'], ['P', 'W']), ('none', 'generic', 'both'), ('batch', 'batch2', 'ok')):
+        obs.append({'h': 'srv_chain', 'stack': stack, 'table': table, 'req': req, 'seq': 1})
     # client side
     for rel, payload, strict in it.product(('equal', 'int', 'str', 'null', 'absent'), ('result', 'error', 'garbage'), (True, False)):
         obs.append({'h': 'cli_single', 'rel': rel, 'payload': payload, 'strict': strict})
@@ -198,7 +201,8 @@ def h_srv_chain(ob):
             ctx = 'CTX'
             mws = [c12._mk_middleware(i, k, log, ctx, is_async) for i, k in enumerate(ob['stack'])]
             table, _, _ = c12._table(env, ob['table'], log, ctx, is_async)
-            rig = Rig(env, kind, middlewares=mws, error_handlers=table, plain_on_async=plain, suspend=False)      # event ORDER across batch elements is compared: no interleaving (C10 explores the schedules)
+            rig = Rig(env, kind, middlewares=mws, error_handlers=table, plain_on_async=plain, suspend=False,
+                      extra_kwargs={'concurrent_batch': False} if (ob.get('seq') and is_async) else None)      # event ORDER across batch elements is compared: no interleaving (C10 explores the schedules)
             rig.log = log          # compare the middleware / handler event log instead of the method log
             rig._ctx = ctx
             return rig
